@@ -5,6 +5,7 @@ import sm2_oracle as o
 
 ID = "C02"
 PROPS = "Props/C02.v"
+GEN = ["sm2", "sm2sig"]      # curve constants (sm2/p256.go) and default_uid / limits / mode values (sm2/sm2.go)
 LEGS = [{"driver": "c02", "runner": ("sm2", "Extract/ExtractSM2.v", "Sm2_model")}]
 COQ_TIMEOUT = 2400
 
@@ -31,6 +32,7 @@ TRUSTED_BASE = [
     "specification coq/SM2/SM2Spec.v typed from GM/T 0003.4 over EC/SM2Curve.v and SM3/SM3Spec.v; the python oracle reproduces the GM/T 0003.5 encryption example",
     "extraction: ExtrOcamlBasic + ExtrOcamlZBigInt (positive/N/Z -> zarith Big_int_Z and its arithmetic constants); no other Extract directive; OCaml 4.13.1, zarith 1.12, dune; runner ocaml/sm2/main.ml",
     "Go driver harness/cmd/c02 (deterministic counting reader, deadline for hang detection, mutation catalogue, hard-coded invalid-curve points of order 2, 3, 4)",
+    "translator targets sm2 (build-ec) and sm2sig (harness/cmd/gen/target_sm2sig.go): curve constants, nonce length, mode values, length limits read from the source into coq/Gen/*.v (theorem C02_source_constants_tied)",
     "python oracle checks/sm2_oracle.py (SM3, affine EC, KDF, encrypt/decrypt per GM/T 0003.4, strict DER of the ciphertext structure) for the predicate",
 ]
 ASSUMPTIONS = [
